@@ -39,14 +39,17 @@ def run(tier: str, seed: int, replay=None) -> int:
         ],
         "design": ([("SNLifeMC_struct_quick", True, 0, "struct"), ("SNLifeMC_reuse_quick", True, 0, "reuse"),
                     ("SNLifeMC_multi_quick", True, 240, "multi"), ("SNLifeMC_life_quick", True, 900, "life"),
-                    ("SNLifeMC_names_quick", True, 250, "names"), ("SNLifeMC_fork_quick", True, 300, "fork"), ("SNLifeMC_names_prefixdot", False, 0, "names-prefixdot"),
+                    ("SNLifeMC_names_quick", True, 250, "names"), ("SNLifeMC_fork_quick", True, 300, "fork"),
                     ("SNLifeMC_ref_quick", False, 0, "ref")] if q else
                    [("SNLifeMC_struct_thorough", True, 0, "struct"), ("SNLifeMC_reuse_thorough", True, 0, "reuse"),
                     ("SNLifeMC_multi_thorough", True, 4000, "multi"), ("SNLifeMC_life_thorough", True, 0, "life"),
                     ("SNLifeMC_names_thorough", True, 4000, "names"), ("SNLifeMC_fork_thorough", True, 4000, "fork"), ("SNLifeMC_names_prefixdot", False, 0, "names-prefixdot"),
                     ("SNLifeMC_ref_thorough", False, 0, "ref")]),
-        "sanity": ["SNLifeMC_pinned_cost", "SNLifeMC_names_prefix", "SNLifeMC_names_sn", "SNLifeMC_names_leafset", "SNLifeMC_one_nosample", "SNLifeMC_fork_shared"],
-        "n_random": 120 if q else 3000,
+        # expected-to-fail (non-vacuity) configurations; the quick tier runs one per mechanism
+        "sanity": (["SNLifeMC_pinned_cost", "SNLifeMC_names_prefix", "SNLifeMC_one_nosample", "SNLifeMC_fork_shared"] if q else
+                   ["SNLifeMC_pinned_cost", "SNLifeMC_names_prefix", "SNLifeMC_names_sn", "SNLifeMC_names_leafset",
+                    "SNLifeMC_one_nosample", "SNLifeMC_fork_shared"]),
+        "n_random": 100 if q else 3000,
         "procs": 8,
     }
     return sn_gen.run_check("C06", tier, seed, replay, plan)
